@@ -37,6 +37,9 @@ type c03Case struct {
 	// before the frames arrive the serving session itself sent messages with a context that
 	// has a deadline, and that deadline has passed since: none | push | call
 	PriorDeadline string
+	// the serving peer bounds the age of its handler contexts (generously: nothing expires):
+	// "" | config (PeerConfig.DefaultContextAge) | session (SetContextAge in a PostAccept hook)
+	CtxAge string
 }
 
 var callStages = []string{"PostReadCallHeader", "PreReadCallBody", "PostReadCallBody"}
@@ -84,6 +87,7 @@ func genC03(t *rapid.T, protos []vt.NamedProto) c03Case {
 	}
 	c.OneShot = rapid.Bool().Draw(t, "oneshot")
 	c.PriorDeadline = rapid.SampledFrom([]string{"none", "none", "none", "push", "call"}).Draw(t, "priordeadline")
+	c.CtxAge = rapid.SampledFrom([]string{"", "", "config", "session"}).Draw(t, "ctxage")
 	c.Chunks, c.Cycle = vt.Chunks(t, "chunks")
 	return c
 }
@@ -225,7 +229,15 @@ func runC03(c c03Case, protos []vt.NamedProto) []string {
 	s := newLib()
 	w := vt.NewWorld()
 	defer w.Close()
-	srv := w.Peer(erpc.PeerConfig{}, &vetoPlugin{name: "veto"})
+	cfg := erpc.PeerConfig{}
+	if c.CtxAge == "config" {
+		cfg.DefaultContextAge = time.Minute
+	}
+	plugs := []erpc.Plugin{&vetoPlugin{name: "veto"}}
+	if c.CtxAge == "session" {
+		plugs = append(plugs, &ageSetter{age: time.Minute})
+	}
+	srv := w.Peer(cfg, plugs...)
 	callRoute, pushRoute := registerLib(srv)
 	proto := protoByName(protos, c.Proto)
 	pair := vt.NewPair()
@@ -460,7 +472,7 @@ func (c c03Case) nontrivial() bool {
 }
 
 func TestC03Dispatch(t *testing.T) {
-	rec := vt.NewRec(t, "C03", "dispatch", "a scripted raw peer sends 1-10 generated frames (type byte, route known/unknown/empty/255 bytes, body decodable/undecodable/empty, codec registered/unregistered/0, veto metadata for a pre-handler plugin, a plugin panicking at PostReadCallBody / PreWriteReply / PostWriteReply, duplicate and extreme seqs; handler behaviour return/error/panic(string,error,*Status)/gated/unmarshalable reply/reply larger than a configured 64 KiB message size limit) to a real server session (which, in two cases out of five, has itself sent a push or a call whose context deadline has passed since), pipelined in one write or frame by frame, under a generated read chunking; reference model of dispatch decides expected replies per seq and handler invocations per request id; non-trivial = an error path or >=2 pipelined frames; distinct by the frame list")
+	rec := vt.NewRec(t, "C03", "dispatch", "a scripted raw peer sends 1-10 generated frames (type byte, route known/unknown/empty/255 bytes, body decodable/undecodable/empty, codec registered/unregistered/0, veto metadata for a pre-handler plugin, a plugin panicking at PostReadCallBody / PreWriteReply / PostWriteReply, duplicate and extreme seqs; handler behaviour return/error/panic(string,error,*Status)/gated/unmarshalable reply/reply larger than a configured 64 KiB message size limit) to a real server session (which, in two cases out of five, has itself sent a push or a call whose context deadline has passed since, and which in half of the cases bounds the age of its handler contexts by PeerConfig.DefaultContextAge or by SetContextAge in a PostAccept hook at one minute), pipelined in one write or frame by frame, under a generated read chunking; reference model of dispatch decides expected replies per seq and handler invocations per request id; non-trivial = an error path or >=2 pipelined frames; distinct by the frame list")
 	protos := vt.StreamProtos()
 	rapid.Check(t, func(t *rapid.T) {
 		c := genC03(t, protos)
